@@ -113,10 +113,44 @@ func setupC12(env *simEnv) {
 		}
 		stream := append([]byte(nil), disk.data...)
 		bounds := append([]int(nil), disk.boundaries...)
+		// writer faults (before any simulated time passes, so the cache is still the one
+		// that was saved): disk full after n bytes - SaveCache must report it; what reached
+		// the disk is judged as a truncation below
+		var writePrefixes [][]byte
+		{
+			L0 := len(stream)
+			wf := map[int]bool{}
+			for _, b := range bounds {
+				wf[b-1] = true
+				wf[b] = true
+			}
+			for i := 0; i < 24 && L0 > 0; i++ {
+				wf[simrt.MiscRng().Intn(L0)] = true
+			}
+			wfs := make([]int, 0, len(wf))
+			for n := range wf {
+				if n >= 0 && n < L0 {
+					wfs = append(wfs, n)
+				}
+			}
+			sort.Ints(wfs)
+			for _, n := range wfs {
+				d := newSimDisk()
+				d.failAfter = n
+				err := env.api.save(version, d.writer(0))
+				simrt.Fault("disk.write-error")
+				if len(d.data) > n || (len(d.data) == n && err == nil) {
+					rd.violate("C12/write-error-swallowed", fmt.Sprintf("the writer failed after %d of %d bytes but SaveCache returned %v", n, L0, err))
+				}
+				if len(d.data) < L0 && string(d.data) == string(stream[:len(d.data)]) {
+					writePrefixes = append(writePrefixes, append([]byte(nil), d.data...))
+				}
+			}
+		}
 		if gap := rd.Sc.Params["gap"]; gap > 0 {
 			simrt.AdvanceTime(gap)
 		}
-		evals := int64(0)
+		evals := int64(len(writePrefixes))
 		cfg := rd.Sc.Cache
 		load := func(b []byte, ver uint64, chunk int, failAt int) loadResult {
 			evals++
@@ -220,32 +254,8 @@ func setupC12(env *simEnv) {
 			}
 			judge("read-error", false, false, r)
 		}
-		// writer faults: disk full after n bytes - SaveCache must report it
-		wf := map[int]bool{}
-		for _, b := range bounds {
-			wf[b-1] = true
-			wf[b] = true
-		}
-		for i := 0; i < 24; i++ {
-			wf[simrt.MiscRng().Intn(L)] = true
-		}
-		wfs := make([]int, 0, len(wf))
-		for n := range wf {
-			if n >= 0 && n < L {
-				wfs = append(wfs, n)
-			}
-		}
-		sort.Ints(wfs)
-		for _, n := range wfs {
-			d := newSimDisk()
-			d.failAfter = n
-			evals++
-			err := env.api.save(version, d.writer(0))
-			if err == nil {
-				rd.violate("C12/write-error-swallowed", fmt.Sprintf("the writer failed after %d of %d bytes but SaveCache returned nil", n, L))
-			}
-			simrt.Fault("disk.write-error")
-			judge("truncated", true, false, load(d.data, version, 0, -1))
+		for _, pfx := range writePrefixes {
+			judge("truncated", true, false, load(pfx, version, 0, -1))
 		}
 		// 2. bit rot: every single-bit flip at every byte
 		buf := make([]byte, L)
